@@ -25,9 +25,9 @@ use fuel_vm::{
     error::{InterpreterError, PredicateVerificationFailed},
     interpreter::{InterpreterParams, NotSupportedEcal},
     prelude::{Interpreter, MemoryInstance, MemoryStorage, Transactor},
-    storage::{ContractsState, ContractsStateKey, InterpreterStorage},
+    storage::{ContractsRawCode, ContractsState, ContractsStateKey, InterpreterStorage},
 };
-use fuel_storage::StorageInspect;
+use fuel_storage::{StorageInspect, StorageMutate};
 use std::collections::BTreeMap;
 
 type B32 = [u8; 32];
@@ -537,6 +537,60 @@ fn croo_case(ctx: &mut Ctx, w: &World, inputs: &[B32], id: B32) {
     }
 }
 
+/// CROO single-stepped on a listed input contract whose code has been REMOVED from the VM's storage after
+/// `init_script` (the only way to reach `ContractNotFound` inside CROO: `init_script` itself requires the inputs to exist)
+fn croo_missing_case(ctx: &mut Ctx, w: &World, inputs: &[B32], id: B32) {
+    let req = format!("croomissing {} {}", smt::list_arg(inputs), hex(&id));
+    let cp = w.cp.clone();
+    let storage = w.storage.clone();
+    let ipar = w.ip();
+    let r = ctx.guard(|| -> String {
+        let mut b = TransactionBuilder::script(croo_script(), id.to_vec());
+        b.with_params(cp.clone());
+        b.script_gas_limit(50_000_000);
+        b.add_fee_input();
+        for (i, c) in inputs.iter().enumerate() {
+            b.add_input(Input::contract(UtxoId::new(Bytes32::new([9; 32]), i as u16), Bytes32::zeroed(), Bytes32::zeroed(), TxPointer::default(), ContractId::new(*c)));
+            b.add_output(Output::contract((i + 1) as u16, Bytes32::zeroed(), Bytes32::zeroed()));
+        }
+        let tx: Script = b.finalize();
+        match tx.into_checked(Default::default(), &cp) {
+            Err(e) => format!("check-failed:{e:?}"),
+            Ok(checked) => {
+                let mut vm = Interpreter::<MemoryInstance, MemoryStorage, Script>::with_storage(MemoryInstance::new(), storage.clone(), ipar.clone());
+                let gp = vm.gas_price();
+                match checked.into_ready(gp, vm.gas_costs(), vm.fee_params(), None) {
+                    Err(e) => format!("ready-failed:{e:?}"),
+                    Ok(ready) => match vm.init_script(ready) {
+                        Err(e) => format!("err:{}", err_name(&e)),
+                        Ok(()) => {
+                            let st: &mut MemoryStorage = vm.as_mut();
+                            let _ = StorageMutate::<ContractsRawCode>::take(st, &ContractId::new(id));
+                            let mut res = String::new();
+                            for ins in [op::gtf_args(0x10, 0x00, GTFArgs::ScriptData), op::movi(0x11, 32), op::aloc(0x11), op::croo(RegId::HP, 0x10)] {
+                                if let Err(e) = vm.instruction::<_, false>(ins) { res = format!("err:{}", err_name(&e)); break; }
+                            }
+                            if res.is_empty() {
+                                let hp = vm.registers()[RegId::HP];
+                                match vm.memory().read(hp, 32usize) { Ok(m) => hex(m), Err(e) => format!("mem-read-failed:{e:?}") }
+                            } else { res }
+                        }
+                    },
+                }
+            }
+        }
+    });
+    match r {
+        Err(p) => { ctx.oracle_fail("panic-croo", &req, &p); ctx.emit(&req, "panic"); }
+        Ok(a) => {
+            let want = if !inputs.contains(&id) { format!("err:{:?}", PanicReason::ContractNotInInputs) } else { format!("err:{:?}", PanicReason::ContractNotFound) };
+            if a != want { ctx.oracle_fail("croo-on-missing-contract-differs", &req, &format!("got {a} want {want}")); }
+            ctx.emit(&req, &a);
+            ctx.count("croo-missing");
+        }
+    }
+}
+
 fn state_case(ctx: &mut Ctx, w: &World, id: B32, key: B32) {
     let req = format!("state {} {}", hex(&id), hex(&key));
     let k = ContractsStateKey::new(&ContractId::new(id), &Bytes32::new(key));
@@ -668,6 +722,7 @@ pub fn run(ctx: &mut Ctx) {
             let missing = ctx.rng.arr32();
             state_case(ctx, &w, *id, missing);
             croo_case(ctx, &w, &[*id], *id);
+            if ctx.rng.chance(1, 3) { croo_missing_case(ctx, &w, &all_ids, *id); }
             if all_ids.len() >= 2 {
                 croo_case(ctx, &w, &all_ids, *id);
                 let others: Vec<B32> = all_ids.iter().copied().filter(|x| x != id).collect();
